@@ -6,18 +6,53 @@ Tie: recipes of public API calls -> driver prints the dump of the input and the 
 (sets in container order, coefficients with Add dictionaries sorted) -> the extracted model reads
 the dumps and recomputes every answer; texts must be identical.  The driver also evaluates the
 property oracles on the library's answers alone (harness/c39_driver.cpp)."""
+import os
 import vlib
 from checks import exprcommon as X
 
 PROOF_MODULES = []   # C39 files are not in coq/_CoqProject yet: compiled directly (see report)
 OBLIGATIONS = [
-    "C39/P_free_symbols_spec_guarded.v", "C39/P_free_symbols_code_spec.v", "C39/P_free_symbols_refuted.v",
-    "C39/P_free_symbols_terminates.v",
-    "C39/P_has_symbol_spec.v", "C39/P_has_symbol_agrees_guarded.v", "C39/P_has_symbol_agrees_refuted.v",
-    "C39/P_atoms_sound.v", "C39/P_atoms_complete.v", "C39/P_function_symbols_spec.v",
-    "C39/P_coeff_spec.v", "C39/P_coeff_reconstruct_partial.v",
+    "C39/P_free_symbols_spec_guarded.v", "C39/P_free_symbols_code_spec.v", "C39/P_free_symbols_sound.v",
+    "C39/P_free_symbols_terminates.v", "C39/P_free_symbols_refuted.v", "C39/P_eq_preserves_occurrences.v",
+    "C39/P_has_symbol_spec.v", "C39/P_has_symbol_occurs.v", "C39/P_has_symbol_agrees_guarded.v",
+    "C39/P_has_symbol_agrees_refuted.v",
+    "C39/P_atoms_sound.v", "C39/P_atoms_complete_partial.v", "C39/P_function_symbols_spec.v",
+    "C39/P_coeff_spec.v", "C39/P_coeff_reconstruct_partial.v", "C39/P_coeff_requires_symbol.v",
     "C39/P_nonvacuous.v",
 ]
+# C39's own Coq files in dependency order (until they are listed in coq/_CoqProject they are
+# compiled here, directly with coqc, whenever a source or a shared library they load has changed)
+OWN_FILES = ["C39/QueryModel.v", "C39/CoeffModel.v", "C39/QuerySpec.v", "C39/OccProofs.v", "C39/QueryLemmas.v",
+             "C39/OccArgs.v", "C39/FsSound.v", "C39/EqbTransfer.v", "C39/ArgsDown.v", "C39/FsComplete.v",
+             "C39/FsSpec.v", "C39/HasSym.v", "C39/Atoms.v", "C39/CoeffProofs.v"]
+SHARED_DEPS = ["Base/Prelude.vo", "Base/Word64.vo", "Num/NumDefs.vo", "Num/NumModel.vo", "Gen/TypeCodes.vo",
+               "Expr/ExprDefs.vo", "Expr/Hash.vo", "Expr/Cmp.vo", "Expr/Guards.vo", "Expr/Wf.vo", "Expr/NumProofs.vo",
+               "Expr/Unfold.vo", "Expr/IO.vo"]
+
+
+def build_own(ctx):
+    """compile coq/C39/*.v (model, spec, proofs) when stale; a file that no longer compiles is a broken proof"""
+    coq = vlib.COQ
+    with vlib.Lock(os.path.join(vlib.WORK, "c39-coq.lock")):
+        newest = max((os.path.getmtime(os.path.join(coq, d)) for d in SHARED_DEPS if os.path.exists(os.path.join(coq, d))), default=0)
+        for f in OWN_FILES:
+            src = os.path.join(coq, f)
+            vo = src + "o"
+            newest = max(newest, os.path.getmtime(src))
+            if os.path.exists(vo) and os.path.getmtime(vo) >= newest:
+                newest = max(newest, os.path.getmtime(vo))
+                continue
+            rc, out = vlib.sh(["timeout", "900", "coqc", "-Q", ".", "SE", "-w", "-notation-overridden", f], cwd=coq, timeout=930)
+            if rc != 0:
+                ctx.broken.append({"kind": "proof", "name": f, "detail": out[-2500:]})
+                return False
+            newest = max(newest, os.path.getmtime(vo))
+    return True
+
+
+# recipes of the witnesses of the two refutation theorems (coq/C39/FsSpec.v, HasSym.v)
+WITNESS_SET_BINDER = "(imageset x (pow x (i 2)) reals)\tx ;; y\t\t"
+WITNESS_SUBS = "(Subs (deriv (fs f x y) x) x z)\tx ;; y ;; z\tx ;; (i 0) || y ;; (i 0)\t"
 
 SYMS = ["x", "y", "z", "w", "ab"]
 PALETTE = "x ;; y ;; z ;; w ;; ab ;; q ;; (fs f x) ;; (fs g z)"
@@ -173,10 +208,10 @@ def gen_case(rng):
 
 CORPUS = [
     # the two defect classes seen on the library (known findings)
-    "(imageset x (pow x (i 2)) reals)\tx ;; y\t\t",
+    WITNESS_SET_BINDER,
     "(condset x (gt x y))\tx ;; y\t\t",
     "(union (imageset x (mul y x) integers) (interval (i 0) (i 1) 0 0))\tx ;; y\t\t",
-    "(Subs (deriv (fs f x y) x) x z)\tx ;; y ;; z\tx ;; (i 0) || y ;; (i 0)\t",
+    WITNESS_SUBS,
     "(diff (fs f (fs g z) y) z)\tz ;; y\tz ;; (i 1)\t",
     # bound variable also free in the point / outside
     "(add x (Subs (deriv (fs f x y) x) x (add x z)))\tx ;; y ;; z\t\t",
@@ -214,6 +249,7 @@ def split_out(line):
 
 def run(ctx):
     ctx.gate(["Base", "Gen", "Num", "Expr", "C39"])
+    build_own(ctx)
     ctx.prove(PROOF_MODULES, OBLIGATIONS)
     drv = ctx.build_driver("c39_driver")
     model = ctx.build_model("C39", "C39/Extract.v", "c39_main.ml", "semodel", extra_ml=["expr_io.ml"])
@@ -265,7 +301,9 @@ def explore(ctx, drv, model, cases, search=False):
     mod = ctx.run_lines(model, heads, timeout=1800, shards=16)
     ndis = 0
     nontriv = set()
-    guard_counts = ctx.cov.setdefault("cases_by_guard", {"no_binder": 0, "set_binder": 0, "subs": 0})
+    guard_counts = ctx.cov.setdefault("cases_by_hypothesis", {
+        "no_binder(all theorems apply)": 0, "set_binder(guard of free_symbols_spec)": 0, "subs(guard of has_symbol_agrees)": 0,
+        "tree_ok": 0, "not_tree_ok": 0, "closure_exact": 0, "not_closure_exact": 0, "closure_exact_untested": 0})
     for k, i in enumerate(idx):
         m, _, g = mod[k].partition("\t#G:")
         ctx.cov["traces_validated_against_impl"] += 1
@@ -276,11 +314,19 @@ def explore(ctx, drv, model, cases, search=False):
         if ("0" in hs and "1" in hs) or "Subs" in dump_e or "ImageSet" in dump_e or "ConditionSet" in dump_e:
             nontriv.add(dump_e)
         if g[:1] == "1":
-            guard_counts["set_binder"] += 1
+            guard_counts["set_binder(guard of free_symbols_spec)"] += 1
         elif g[1:2] == "1":
-            guard_counts["subs"] += 1
+            guard_counts["subs(guard of has_symbol_agrees)"] += 1
         else:
-            guard_counts["no_binder"] += 1
+            guard_counts["no_binder(all theorems apply)"] += 1
+        guard_counts["tree_ok" if g[2:3] == "1" else "not_tree_ok"] += 1
+        guard_counts[{"1": "closure_exact", "0": "not_closure_exact"}.get(g[3:4], "closure_exact_untested")] += 1
+        if g[2:3] == "0" and len(ctx.notes) < 5:
+            ctx.notes.append("a library-built tree violates tree_ok (hypothesis of the completeness theorems): " + dump_e[:300])
+        if not search and cases[i] in (WITNESS_SET_BINDER, WITNESS_SUBS):
+            what = "C39_free_symbols_refuted" if cases[i] == WITNESS_SET_BINDER else "C39_has_symbol_agrees_refuted"
+            ctx.notes.append("%s %s on the library (witness %s)" % (
+                what, "reproduces" if oracles[k] else "no longer reproduces", cases[i].split("\t")[0]))
         for o in oracles[k]:
             cls, _, text = o.partition(":")
             ctx.violation("C39/" + cls, "e = %s : %s" % (cases[i].split("\t")[0], text.strip()),
@@ -333,6 +379,7 @@ def first_diff(m, r):
 
 
 def replay(ctx, rep):
+    build_own(ctx)
     drv = ctx.build_driver("c39_driver")
     model = ctx.build_model("C39", "C39/Extract.v", "c39_main.ml", "semodel", extra_ml=["expr_io.ml"])
     c = rep["replay"]["case"]
